@@ -187,9 +187,9 @@ pub fn report(app: tauri::AppHandle, id: u32) {
     app.emit("address-looked-up", &address).ok();
 }
 """ % (payload, ev_name, pvar, extra_ev,
-       # an emit whose payload struct nothing else reaches - only in projects that had events from the start: the first
-       # emit calls added to an event-free project must not bring a new type with them (the step "events appear" has to
-       # change the events and nothing else, or a cache that ignores events is excused by the struct hash)
+       # an emit whose payload struct nothing else reaches - only in histories whose events stay: the steps "events appear"
+       # and "the last event disappears" must not add or remove a type (they have to change the events and nothing else,
+       # or a cache that ignores events is excused by the struct hash)
        'pub fn report_job(app: tauri::AppHandle, report: JobReport) {\n    app.emit("job-report", report).ok();\n}\n' if st.rich_events else "")
     else:
         ev_rs = "pub fn notify() {}\n"
@@ -822,7 +822,9 @@ def replay_history(root, hist, has_events, viz, case, driver_override=None, nfil
     st.has_cmds = bool(has_cmds)
     st.symlink = bool(symlink)
     st.qualmaps = bool(qualmaps)
-    st.rich_events = bool(has_events)
+    # the emit with a payload struct of its own exists only in histories in which events neither appear nor disappear:
+    # both steps have to change the events and nothing else
+    st.rich_events = bool(has_events) and not any(h[0] == "events" for h in hist)
     st.nfiles = nfiles
     if setup:
         setup(st, root)
